@@ -252,6 +252,9 @@ pub struct Sched {
     pub read_out: Prof,
     pub queries: bool,
     pub stop_on_boundary: bool,
+    /// part of a length-delimited request body bypasses `write`: the caller puts the bytes on the
+    /// wire itself and reports them with `consume_direct_write`
+    pub direct: bool,
     /// explicit arrival points (offsets into the driver's server slice); empty = use `arrive`
     pub cuts: Vec<usize>,
 }
@@ -266,6 +269,7 @@ impl Sched {
             arrive: Prof::Big,
             read_out: Prof::Big,
             queries: false,
+            direct: false,
             stop_on_boundary: false,
             cuts: vec![],
         }
@@ -290,20 +294,22 @@ impl Sched {
             read_out: *rng.pick(profs),
             queries: rng.chance(1, 2),
             stop_on_boundary: rng.chance(1, 3),
+            direct: rng.chance(1, 4),
             rng: rng.fork(),
             cuts: vec![],
         }
     }
     pub fn describe(&self) -> String {
         format!(
-            "head_out={} body_in={} body_out={} arrive={} read_out={} queries={} stop_on_boundary={}",
+            "head_out={} body_in={} body_out={} arrive={} read_out={} queries={} stop_on_boundary={} direct={}",
             self.head_out.name(),
             self.body_in.name(),
             self.body_out.name(),
             self.arrive.name(),
             self.read_out.name(),
             self.queries,
-            self.stop_on_boundary
+            self.stop_on_boundary,
+            self.direct
         )
     }
 }
@@ -454,6 +460,7 @@ pub struct Driver<'a> {
     pub chunk_reads: Vec<(usize, usize)>,
     pub max_steps: usize,
     pub finished_body_write_calls: usize,
+    pub direct_writes: usize,
     /// every look while awaiting 100: (window length offered, consumed, can_keep_await_100 afterwards)
     pub await_log: Vec<(usize, usize, bool)>,
     /// every try_response call: (window length offered, consumed, status if a response came back)
@@ -496,6 +503,7 @@ impl<'a> Driver<'a> {
             chunk_reads: vec![],
             max_steps,
             finished_body_write_calls: 0,
+            direct_writes: 0,
             await_log: vec![],
             response_log: vec![],
             body_start: 0,
@@ -742,6 +750,24 @@ impl<'a> Driver<'a> {
                     if remaining > 0 {
                         k = remaining.min(f.calculate_max_input(out)).max(1);
                     }
+                }
+                if self.sched.direct && k >= 1 && !f.is_chunked() && self.sched.rng.chance(1, 2) {
+                    // the caller wrote these bytes to the transport itself and only reports them
+                    rec.call();
+                    let r = f.consume_direct_write(k);
+                    rec.ev(|| format!("SendBody.consume_direct_write({}) -> {:?} can_proceed={}", k, r, f.can_proceed()));
+                    if let Err(e) = r {
+                        self.flow = AnyFlow::SendBody(f);
+                        return Step::Failed {
+                            call: "SendBody::consume_direct_write",
+                            err: format!("{:?} for {} of {} remaining bytes", e, k, remaining),
+                        };
+                    }
+                    self.body_out.extend_from_slice(&self.req_body[self.body_pos..self.body_pos + k]);
+                    self.body_pos += k;
+                    self.direct_writes += 1;
+                    self.flow = AnyFlow::SendBody(f);
+                    return Step::More;
                 }
                 let input = &self.req_body[self.body_pos..self.body_pos + k];
                 let mut buf = vec![0u8; out];
@@ -1102,17 +1128,26 @@ pub fn body_sender(cl: Option<u64>, explicit_te: bool, use_call: bool) -> Result
 }
 
 /// `variant` bit 0: explicit Host header; bit 1 (Flow only): a GET turned into a body request by
-/// send_body_despite_method() (default framing = chunked unless `cl`)
+/// send_body_despite_method() (default framing = chunked unless `cl`); bit 3 (Flow only): the request
+/// carries Expect: 100-continue and the caller gives up waiting; bit 4 (Flow only): Expect and the
+/// server's 100 Continue is read before the body
 pub fn body_sender_ex(cl: Option<u64>, explicit_te: bool, use_call: bool, variant: u8) -> Result<BodySender, String> {
     let despite = variant & 2 != 0 && !use_call;
-    let mut b = Request::builder().method(if despite { "GET" } else { "POST" }).uri("http://h.test/up");
+    // bits 5..6: which body-less method the escape hatch is used on
+    let despite_method = ["GET", "TRACE", "DELETE", "OPTIONS"][(variant >> 5) as usize & 3];
+    let mut b = Request::builder().method(if despite { despite_method } else { "POST" }).uri("http://h.test/up");
     if variant & 1 != 0 {
         b = b.header("host", "h.test");
+    }
+    let expect = variant & (8 | 16) != 0 && !use_call;
+    if expect {
+        b = b.header("expect", "100-continue");
     }
     if let Some(n) = cl {
         b = b.header("content-length", n.to_string());
     } else if explicit_te {
-        b = b.header("transfer-encoding", "chunked");
+        // bit 7: the coding named with a capital letter
+        b = b.header("transfer-encoding", if variant & 128 != 0 { "Chunked" } else { "chunked" });
         if variant & 4 != 0 {
             // both framing headers: the chunked coding decides, the head says so
             b = b.header("content-length", "4242");
@@ -1135,7 +1170,19 @@ pub fn body_sender_ex(cl: Option<u64>, explicit_te: bool, use_call: bool, varian
         let mut f = p.proceed();
         f.write(&mut buf).map_err(|e| format!("{:?}", e))?;
         match f.proceed().map_err(|e| format!("{:?}", e))? {
-            Some(SendRequestResult::SendBody(s)) => Ok(BodySender::Flow(s)),
+            Some(SendRequestResult::SendBody(s)) if !expect => Ok(BodySender::Flow(s)),
+            Some(SendRequestResult::Await100(mut a)) if expect => {
+                if variant & 16 != 0 {
+                    let n = a.try_read_100(b"HTTP/1.1 100 Continue\r\n\r\n").map_err(|e| format!("{:?}", e))?;
+                    if n != 25 {
+                        return Err(format!("100 Continue not consumed: {}", n));
+                    }
+                }
+                match a.proceed().map_err(|e| format!("{:?}", e))? {
+                    Await100Result::SendBody(s) => Ok(BodySender::Flow(s)),
+                    _ => Err("expected SendBody after Await100".into()),
+                }
+            }
             _ => Err("expected SendBody after the head".into()),
         }
     }
